@@ -162,5 +162,79 @@ def tableSrc (c : TableCtor) (arg : Nat) (xs : List Pair) : Option (List (Option
   if n < 0 then none
   else (fillSrc c.slot xs (List.replicate n.toNat none)).map fun t => (t, c.sizeFinal.eval (envTable s1 0 arg))
 
+/-! ### round four: the loops of merge() as a program, the first branch, the local index classes -/
+
+structure MState where
+  old : List Pair
+  added : List Pair
+  temp : List Pair
+
+def MAct.run : MAct → MState → Option MState
+  | .pushOld, s => s.old.head?.map fun o => { s with temp := s.temp ++ [o] }
+  | .pushAdded, s => s.added.head?.map fun a => { s with temp := s.temp ++ [a] }
+  | .eraseOld, s => match s.old with | [] => none | _ :: os => some { s with old := os }
+  | .eraseAdded, s => match s.added with | [] => none | _ :: as => some { s with added := as }
+
+def runActs : List MAct → MState → Option MState
+  | [], s => some s
+  | a :: as, s => (a.run s).bind (runActs as)
+
+/-- environment of the conditions inside `merge()`: the entries under the two iterators -/
+def envMerge (inner : BE) (s : MState) : Env :=
+  let o := s.old.head?.getD default
+  let a := s.added.head?.getD default
+  { i := (envPairs inner o a).i,
+    b := fun v => match v with | .oldDeleted => !o.l.valid | w => (envPairs inner o a).b w }
+
+def MTree.run (inner : BE) : MTree → MState → Option MState
+  | .acts l, s => runActs l s
+  | .ite c t e, s => if c.eval (envMerge inner s) then t.run inner s else e.run inner s
+  | .unknown, _ => none
+
+def MLoop.guard (l : MLoop) (s : MState) : Bool :=
+  (!l.needOld || !s.old.isEmpty) && (!l.needAdded || !s.added.isEmpty)
+
+def MLoop.run (inner : BE) (l : MLoop) : Nat → MState → Option MState
+  | 0, s => if l.guard s then none else some s
+  | f + 1, s => if l.guard s then (l.body.run inner s).bind (l.run inner f) else some s
+
+def runLoops (inner : BE) : List MLoop → MState → Option MState
+  | [], s => some s
+  | l :: ls, s => (l.run inner (s.old.length + s.added.length) s).bind (runLoops inner ls)
+
+/-- the `else if` branch of `merge()`: the loops in source order, then `localIndices_ = tempPairs` -/
+def mergeProgSrc (inner : BE) (loops : List MLoop) (old added : List Pair) : Option (List Pair) :=
+  (runLoops inner loops ⟨old, added, []⟩).map (·.temp)
+
+def CopyAct.apply : CopyAct → ISet → ISet
+  | .assignNewToLocal, s => { s with loc := s.fresh }
+  | .clearNew, s => { s with fresh := [] }
+  | .unknown, s => s
+
+def runCopy (cs : List CopyAct) (s : ISet) : ISet := cs.foldl (fun s c => c.apply s) s
+
+/-- `merge()` as the source describes it (the two branch conditions are the model's: they only decide whether work whose
+result is the unchanged list may be skipped) -/
+def mergeSrc (copy : List CopyAct) (inner : BE) (loops : List MLoop) (s : ISet) : Option ISet :=
+  if s.loc.length = 0 then some (runCopy copy s)
+  else if s.fresh.length > 0 || s.del then
+    (mergeProgSrc inner loops s.loc s.fresh).map fun l => { s with loc := l, fresh := [] }
+  else some s
+/-- numeric value; booleans as 0/1, `enum LocalIndexState {VALID, DELETED}` as 0/1 (`Gen.stateEnum`) -/
+def Init.eval (args : List Nat) : Init → Nat
+  | .zero => 0 | .falseV => 0 | .trueV => 1 | .valid => 0 | .deleted => 1
+  | .param i => args.getD i 0
+
+def LIdxCtor.build (c : LIdxCtor) (args : List Nat) : LIdx :=
+  { loc := c.loc.eval args, attr := c.attr.eval args, pub := c.pub.eval args != 0, valid := c.state.eval args == 0 }
+
+/-- the member assignments of `operator=(size_t)` / `setState(state)` in source order -/
+def writeSrc : List (Member × Init) → List Nat → LIdx → LIdx
+  | [], _, x => x
+  | (.loc, v) :: r, a, x => writeSrc r a { x with loc := v.eval a }
+  | (.attr, v) :: r, a, x => writeSrc r a { x with attr := v.eval a }
+  | (.pub, v) :: r, a, x => writeSrc r a { x with pub := v.eval a != 0 }
+  | (.state, v) :: r, a, x => writeSrc r a { x with valid := v.eval a == 0 }
+
 end Src
 end DV.C03
